@@ -129,6 +129,11 @@ Theorem cellunion_region_predicates_safe : forall l c, all_valid l -> normal l -
 Proof. intros l c Vl Nl Vc. split; [exact (cu_contains_sound l Vl Nl c Vc)|exact (cu_intersects_sound l Vl Nl c Vc)]. Qed.
 Print Assumptions cellunion_region_predicates_safe.
 
+(* FIXED FINDING (/repo 38de577; KNOWN_FINDINGS.jsonl): SoundI used to be false for s2.Rect, because
+   Rect.IntersectsCell skipped every boundary test for a cell edge running westward.  SoundI for s2.Rect
+   is again a premise (H-LATBOUND) attacked by the observer's grazing family; the old witness is a
+   regression input of the corpus. *)
+
 (* TODO (not proved; covered by the observer's search on every run):
    - FallbackTotal (cu_fallback depth cubound): the nesting depth of the "very large covering" branch.
      Needs the geometric fact that CapBound().CellUnionBound() of a union is strictly coarser than the
